@@ -290,6 +290,108 @@ def gen_in_case(rng):
     return c
 
 
+# ---- aggregates over the grouping keys themselves (fix-J): count / first / last / min / max / sum applied to an expression that IS
+# a grouping key (whatever way the key is referenced: expression, output name, position, implicit; visible or hidden), as
+# a target, as a hidden ORDER BY key or inside HAVING, on tables where a good share of the key values is NULL: the NULL
+# group is an ordinary group whose count(key) is 0, first/last/min/max(key) NULL and sum(key) the type's zero.
+KEYAGG_FUNS = [('count', 'ACount'), ('count', 'ACount'), ('count', 'ACount'), ('first', 'AFirst'), ('last', 'ALast'),
+               ('min', 'AMin'), ('max', 'AMax'), ('sum', None)]
+SUM_ZERO = {'int': '(VInt 0)', 'decimal': '(VDec (mkdec false 0 0))', 'bool': '(VInt 0)'}
+
+
+def gen_keyagg_case(rng):
+    for _ in range(200):
+        ncols = rng.randint(2, 4)
+        cols = [(n, rng.choice(exprgen.ALL_TYPES)) for n in 'abcde'[:ncols]]
+        null_p = rng.choice([0.3, 0.5])
+        nrows = rng.choice([3, 5, 8, 12])
+        rows = [tuple(values.gen_value(rng, PY[t], null_p) for _, t in cols) for _ in range(nrows)]
+        c = gen_case(rng, cols, rows)
+        keys = [(t['text'], t['coq'], t['type'], 'visible') for t in c['targets'] if t['kind'] == 'key']
+        keys += [(text, coq, None, 'hidden') for text, coq in c['hid_keys']]
+        if keys:
+            break
+    c['order'] = list(c['order'])
+    c['keyagg'] = []
+    for _ in range(rng.choice([1, 1, 2])):
+        ktext, kcoq, ktype, vis = rng.choice(keys)
+        fn, tag = rng.choice(KEYAGG_FUNS)
+        if fn == 'sum':
+            if ktype not in SUM_ZERO:
+                fn, tag = 'count', 'ACount'
+            else:
+                tag = f'(ASum {SUM_ZERO[ktype]})'
+        h = len(c['aggs'])
+        c['aggs'] = c['aggs'] + ['{| afun := ' + tag + '; aarg := ' + kcoq + ' |}']
+        text, coq = f'{fn}({ktext})', f'(EAgg {h}%nat)'
+        rtype = T_INT if fn == 'count' or (fn == 'sum' and ktype == T_BOOL) else ktype
+        place = rng.choice(['target', 'target', 'order', 'having'])
+        if place == 'having' and (c['implicit'] or c['having'] or fn != 'count'):
+            place = 'target'
+        if place == 'target':
+            c['targets'].append({'kind': 'agg', 'text': text, 'coq': coq, 'alias': rng.choice([None, f'ka{h}']), 'type': rtype,
+                                 'bare': False})
+        elif place == 'order':
+            c['extra_order'] = c['extra_order'] + [(text, coq)]
+            c['order'].append(('hidden', len(c['extra_order']) - 1, rng.choice(['', ' DESC'])))
+        else:
+            n = rng.choice([0, 1, 2])
+            c['having'] = (f'({text} > {n})', f'(EBinary BGt {coq} (EConst (VInt {n})))')
+        c['keyagg'].append(f'{fn}:{vis}:{place}')
+        c['nagg'] += 1
+    return c
+
+
+# ---- ill-formed neighbours (fix-J): an aggregate statement WITHOUT a GROUP BY clause (implicit grouping by its non-aggregate
+# targets, or aggregates only) whose ORDER BY holds a NON-aggregate expression that is not one of the targets. There is no
+# partition of which that expression could be a key: the statement is rejected (Compile.v: uncovered non-aggregate target; C05), and
+# in any case the rows, if any were produced, must be those of the partition by the non-aggregate TARGETS: one row for each
+# distinct value of them, each aggregate folded over the whole group (model of the statement without the extra item; as multisets).
+def gen_uncovered_order_case(rng):
+    for _ in range(500):
+        c = gen_case(rng)
+        if not (c['implicit'] and c['nagg'] >= 1 and len(c['rows']) >= 2):
+            continue
+        g = exprgen.Gen(rng, c['cols'], max_depth=1)
+        e = g.expr(rng.choice(exprgen.ALL_TYPES), rng.choice([0, 0, 1]))
+        names = {t['text'] for t in c['targets']} | {t['alias'] for t in c['targets'] if t['alias']}
+        if not e.cols or e.text in names:
+            continue
+        c['order'] = list(c['order'])
+        c['ill_order'] = (e.text, rng.choice(['', ' ASC', ' DESC']), rng.randrange(len(c['order']) + 1))
+        c['distinct'], c['limit'] = False, None
+        return c
+    raise RuntimeError('gen_uncovered_order_case: no case')
+
+
+def base_of(c):
+    d = dict(c)
+    d.pop('ill_order', None)
+    return d
+
+
+def ill_verdict(c, impl_res, base_model):
+    """None when the outcome is admissible: rejected at compile time, or exactly the rows of the partition by the targets."""
+    if impl_res[0] == 'exception':
+        return None if impl_res[1] == 'CompilationError' else f'fails with {impl_res[1]}: {impl_res[2]}'
+    if base_model[0] == 0 and sorted(map(repr, impl_res[1])) == sorted(map(repr, base_model[1])):
+        return None
+    return 'accepted, and the rows are not one row per distinct value of the non-aggregate targets'
+
+
+def shrink_ill(c):
+    def with_rows(rows):
+        d = dict(c)
+        d['rows'] = rows
+        return d
+
+    def fails(cands):
+        cs = [with_rows(r) for r in cands]
+        ms = model_many([base_of(x) for x in cs], tag='c02s')
+        return [ill_verdict(x, run_impl(x), m) is not None for x, m in zip(cs, ms)]
+    return with_rows(ddmin_batch(c['rows'], fails)) if len(c['rows']) >= 2 else c
+
+
 def statement(c):
     tl = ', '.join(t['text'] + (f' AS {t["alias"]}' if t['alias'] else '') for t in c['targets'])
     s = 'SELECT ' + ('DISTINCT ' if c['distinct'] else '') + tl + ' FROM ' + c.get('from_sql', '#t')
@@ -299,7 +401,7 @@ def statement(c):
         s += ' GROUP BY ' + ', '.join(c['group_items'])
         if c['having']:
             s += ' HAVING ' + c['having'][0]
-    if c['order']:
+    if c['order'] or c.get('ill_order'):
         ks = []
         for kind, i, desc in c['order']:
             if kind == 'pos':
@@ -309,6 +411,9 @@ def statement(c):
                 ks.append(f'{t["alias"] or t["text"]}{desc}')
             else:
                 ks.append(f'{c["extra_order"][i][0]}{desc}')
+        if c.get('ill_order'):       # gen_uncovered_order_case: a non-aggregate ORDER BY item that is no target and no key
+            text, desc, at = c['ill_order']
+            ks.insert(min(at, len(ks)), text + desc)
         s += ' ORDER BY ' + ', '.join(ks)
     if c['limit'] is not None:
         s += f' LIMIT {c["limit"]}'
@@ -408,8 +513,24 @@ def additivity_check(c):
         g = conn.execute(f'SELECT {", ".join(keycols)}, count(*) AS n FROM #t{w} GROUP BY {", ".join(keycols)}').fetchall()
         tot = conn.execute(f'SELECT count(*) AS n FROM #t{w}').fetchall()
         flat = conn.execute(f'SELECT {keycols[0]} FROM #t{w}').fetchall()
+        # count(<grouping key>): the NULL group contributes 0; the key referenced by name, by position and implicitly
+        kc = ', '.join(f'count({k}) AS c{j}' for j, k in enumerate(keycols))
+        forms = [f'SELECT {", ".join(keycols)}, {kc} FROM #t{w} GROUP BY {", ".join(keycols)}',
+                 f'SELECT {", ".join(keycols)}, {kc} FROM #t{w} GROUP BY {", ".join(str(j + 1) for j in range(len(keycols)))}',
+                 f'SELECT {", ".join(keycols)}, {kc} FROM #t{w}',
+                 f'SELECT {kc} FROM #t{w} GROUP BY {", ".join(keycols)}']
+        gk = [conn.execute(f).fetchall() for f in forms]
+        totk = conn.execute(f'SELECT {kc} FROM #t{w}').fetchall()
+        flatk = conn.execute(f'SELECT {", ".join(keycols)} FROM #t{w}').fetchall()
     except Exception as e:  # noqa: BLE001
         return f'exception {e!r}'
+    nk = len(keycols)
+    wantk = [sum(r[j] is not None for r in flatk) for j in range(nk)]
+    for f, rows in zip(forms, gk):
+        sums = [sum(r[len(r) - nk + j] for r in rows) for j in range(nk)]
+        if sums != wantk or (totk and list(totk[0]) != wantk):
+            return (f'{f}: group-wise count(key) values add up to {sums}, the ungrouped count(key) is {list(totk[0]) if totk else None}, '
+                    f'the selected rows hold {wantk} non-NULL key values')
     total = tot[0][0] if tot else 0
     if sum(r[-1] for r in g) != total or total != len(flat):
         return f'group counts {[r[-1] for r in g]} do not add up to total {total} / selected rows {len(flat)}'
@@ -589,9 +710,41 @@ def run(tier, rng):
     cases = [gen_case(rng) for _ in range(n)]
     n_plain = len(cases)
     cases += [gen_in_case(rng) for _ in range(400 if tier == 'quick' else 6000)]
+    n_ka = 500 if tier == 'quick' else 6000
+    cases += [gen_keyagg_case(rng) for _ in range(n_ka)]
     impl_out = core.pmap(run_impl, cases)
     model_out = model_many(cases)
     violations, seen = [], set()
+    # ill-formed neighbours: non-aggregate ORDER BY item that is no target, no GROUP BY clause
+    ill = [gen_uncovered_order_case(rng) for _ in range(250 if tier == 'quick' else 3000)]
+    ill_impl = core.pmap(run_impl, ill)
+    ill_model = model_many([base_of(c) for c in ill], tag='c02i')
+    ill_hist = {'cases': len(ill), 'rejected_CompilationError': 0, 'accepted_with_partition_rows': 0, 'targets_all_aggregates': 0,
+                'with_key_targets': 0, 'order_items': {}, 'groups_with_several_rows': 0}
+    ill_seen = set()
+    for c, i, m in zip(ill, ill_impl, ill_model):
+        ill_hist['rejected_CompilationError'] += i[0] == 'exception' and i[1] == 'CompilationError'
+        ill_hist['accepted_with_partition_rows'] += i[0] == 0
+        allagg = not any(t['kind'] == 'key' for t in c['targets'])
+        ill_hist['targets_all_aggregates'] += allagg
+        ill_hist['with_key_targets'] += not allagg
+        no = len(c['order']) + 1
+        ill_hist['order_items'][no] = ill_hist['order_items'].get(no, 0) + 1
+        ill_hist['groups_with_several_rows'] += m[0] == 0 and len(m[1]) < len(c['rows'])
+        why = ill_verdict(c, i, m)
+        if why and len(ill_seen) < 2:
+            small = shrink_ill(c)
+            sig = 'uncovered-order:' + statement(small) + ' rows=' + repr(small['rows'])
+            if sig in ill_seen:
+                continue
+            ill_seen.add(sig)
+            bm = model_many([base_of(small)], tag='c02s')[0]
+            violations.append(core.Violation(
+                'uncovered-order', f'{statement(small)} over {small["cols"]} rows {small["rows"]}: no GROUP BY clause and a non-aggregate '
+                f'ORDER BY item that is not a target: {ill_verdict(small, run_impl(small), bm)}; implementation {run_impl(small)}, the '
+                f'partition by the targets (model, without that item) gives {bm}',
+                {'case': small, 'ill': True, 'statement': statement(small), 'impl': run_impl(small), 'model_without_item': bm},
+                signature=sig))
     hist = {'ops': {}, 'nkeys': {}, 'implicit': 0, 'having': 0, 'hidden_keys': 0, 'order': 0, 'nrows': {}, 'where': 0}
     distinct, nontrivial, errors = set(), 0, 0
     for c, i, m in zip(cases, impl_out, model_out):
@@ -609,6 +762,16 @@ def run(tier, rng):
         hist['hidden_keys'] += bool(c['hid_keys'])
         hist['order'] += bool(c['order'])
         hist['where'] += bool(c['where'])
+        if 'keyagg' in c:
+            kh = hist.setdefault('aggregate_over_grouping_key', {'cases': 0, 'fun:key_visibility:place': {}, 'implicit': 0,
+                                                                 'null_key_group_in_output': 0, 'executed': 0})
+            kh['cases'] += 1
+            for k in c['keyagg']:
+                kh['fun:key_visibility:place'][k] = kh['fun:key_visibility:place'].get(k, 0) + 1
+            kh['implicit'] += c['implicit']
+            kh['executed'] += i[0] == 0
+            kh['null_key_group_in_output'] += i[0] == 0 and any(
+                r[j] is None for r in i[1] for j, t in enumerate(c['targets']) if t['kind'] == 'key')
         if 'urows' in c:
             ih = hist.setdefault('in_subquery_in_where', {'cases': 0, 'inner_shape': {}, 'outer_having_aggregate': 0,
                                                           'outer_hidden_order_aggregate': 0, 'both': 0, 'outer_aggregates': {},
@@ -667,8 +830,17 @@ def run(tier, rng):
                 'nested SELECT plain / filtered / grouped / with 1-2 aggregates of its own in targets, HAVING or ORDER BY .. LIMIT, and with '
                 'further outer aggregates in HAVING / hidden ORDER BY keys (histograms.in_subquery_in_where), the model taking the value list '
                 'from Subquery.items_of (exec inner #u)',
-        'samples': [statement(c) for c in cases[:5]] + [statement(c) for c in cases[n_plain:n_plain + 3]],
+        'samples': [statement(c) for c in cases[:5]] + [statement(c) for c in cases[n_plain:n_plain + 3]]
+                   + [statement(c) for c in cases[-3:]] + [statement(c) for c in ill[:3]],
         'traces_validated_against_impl': len(cases), 'histograms': hist, 'implementation_exceptions': errors,
+        'uncovered_order_neighbours': ill_hist,
+        'rule_fix_J': 'plus (a) aggregates over the grouping keys themselves (histograms.aggregate_over_grouping_key): count / first / last / '
+                      'min / max / sum of an expression that is a grouping key (visible or hidden, any reference form, implicit), as target, '
+                      'hidden ORDER BY key or in HAVING, tables with 30-50% NULLs, against the model; additivity of count(key) over the groups '
+                      '(4 spellings of the grouping) against the ungrouped count(key) and a plain count of the non-NULL values; (b) ill-formed '
+                      'neighbours (uncovered_order_neighbours): no GROUP BY clause, aggregates in the targets, and a non-aggregate ORDER BY '
+                      'expression that is not a target: rejected with CompilationError, or else exactly the rows (as a multiset) of the '
+                      'partition by the non-aggregate targets (model of the statement without the item)',
     }
     return {'coverage': cov, 'violations': violations}
 
@@ -684,6 +856,9 @@ def replay(rec):
         c['urows'] = [tuple(_unjson(v, t) for v, (_, t) in zip(r, c['ucols'])) for r in c['urows']]
     if 'what' in rec:
         return additivity_check(c) is None
+    if rec.get('ill'):
+        c['ill_order'] = tuple(c['ill_order'])
+        return ill_verdict(c, run_impl(c), model_many([base_of(c)], tag='c02s')[0]) is None
     return run_impl(c) == model_many([c], tag='c02s')[0]
 
 
